@@ -252,8 +252,8 @@ def main(tier="quick", seed=0):
         conf = [conf[i] for i in sorted(rng.choice(len(conf), size=min(len(conf), 1000), replace=False))]
     extra = random_cases(rng, 150 if quick else 4000, 2 if quick else 3)
     used = vote + conf + extra
-    n_enc = 2 if quick else len(ENCODINGS)
-    n_seeds = 4 if quick else 16
+    n_enc = 2                      # seeded choice of 2 of the 4 encodings per case
+    n_seeds = 4 if quick else 8
     seeds = rng.integers(0, 2 ** 31, size=len(used)).tolist()
     out = pmap(run_case, [(c, n_enc, n_seeds, s) for c, s in zip(used, seeds)])
     traces = []
